@@ -84,6 +84,12 @@ fn compartmentalize_map(map: &mut Mapping) {
     }
 }
 
+/// Indicates whether a value is a mapping that was created while nesting keys with
+/// wildcards. Such a mapping addresses deeper modules, it is not a property value.
+fn is_wildcard_compartment(value: &Value) -> bool {
+    matches!(value, Value::Mapping(map) if map.contains_key(ANY))
+}
+
 impl Props {
     pub fn update_from(&mut self, base: &Value, path: &[&str]) {
         if path.is_empty() {
@@ -92,7 +98,7 @@ impl Props {
                     let Value::String(k) = k else {
                         continue;
                     };
-                    if k.contains(ANY) {
+                    if k.contains(ANY) || is_wildcard_compartment(v) {
                         continue;
                     }
                     self.set(k.clone(), v.clone());
@@ -130,6 +136,9 @@ impl Props {
                 let Some(entry) = map.get(matching_key) else {
                     continue;
                 };
+                if is_wildcard_compartment(entry) {
+                    continue;
+                }
                 let remaining = &matching_key[(key.len() + 1)..];
                 self.set(remaining.to_string(), entry.clone());
             }
